@@ -37,6 +37,9 @@ CONFIGS = [
         shapes="ShUpTo(%s, 5) \\cup NodeSubjectNodes(%s, 9)" % (B3, B2)),
     cfg("obscure_q2", [["build"], ["elide", "compress", "encrypt"], ["elide", "compress", "encrypt"]], nreg=1, maxsize=12, maxt=2,
         shapes="ShUpTo(%s, 4)" % B3),
+    # progressive redaction: a second elision on what the first one left (nodes with already hidden parts)
+    cfg("reelide_q", [["build"], ["elide", "compress", "encrypt"], ["elide", "compress", "encrypt"]], nreg=1, maxsize=12, maxt=3,
+        shapes="{e \\in ShUpTo(%s, 5) : IsNode(e)} \\cup NodeSubjectNodes(%s, 9) \\cup Decorated(%s) \\cup Nodes2(%s)" % (B2, B1, B1, B1)),
     # symmetric encryption with a key-holding adversary (C08)
     cfg("encrypt_q", [["build"], ["build", "encrypt", "elideset"], ["forge", "tamper", "addassertion", "encrypt"], ["decrypt"]],
         keys=("k1", "k2"), maxsize=9, maxt=1, inv=("WellFormedInv", "C08Laws"), props=("C02Prop", "C08Prop", "C07Prop"), shapes="ShUpTo(%s, 3) \\cup {e \\in Sh(%s, 5) : IsNode(e)} \\cup NodeSubjectNodes({Leaf(V(\"a1\"))}, 9) \\cup Decorated({Leaf(V(\"a1\"))})" % (B2, B1)),
